@@ -67,6 +67,7 @@ def run(ctx, chk):
     chk.rule("C11.R2", "numeric alternatives: digit class / radix / prefix / type agree", floor=11)
     chk.rule("C11.R3", "synonyms are folded inside their Intel class", floor=100)
     chk.rule("C11.R4", "operands are emitted in source order", floor=100)
+    chk.rule("C11.R7", "operand-building nonterminals keep every component (register, displacement, segment, name)", floor=20)
     chk.rule("C11.R5", "memory/label operands keep their width keyword", floor=60)
     chk.rule("C11.R6", "one emitted line per source instruction", floor=100)
     lits = set(t.strip('"') for t in GA.g["terminals"] if t.startswith('"'))
@@ -174,6 +175,62 @@ def run(ctx, chk):
                 else:
                     chk.violation("C11.R3", f"{nt}:{terms[0]}", "changes-operation", f"source `{terms[0]}` is emitted as `{out}`, a different instruction", where)
 
+    # ---- R7: string-valued helper nonterminals (memory_addr, labels, ...) must not drop a component
+    for nt_data in GA.g["nonterminals"]:
+        nt = nt_data["name"]
+        if nt.startswith("__") or (nt_data.get("type") or "") != "String" or nt.startswith("quote_"):
+            continue
+        for k, p in enumerate(nt_data["productions"]):
+            syms = p["symbols"]
+            bound = bound_names(GA, p)
+            override = {}
+            comps = []
+            for i, sy in enumerate(syms):
+                if bound.get(i) in (None, "_"):
+                    continue
+                if sy["t"] == "nt":
+                    if sy["name"].startswith("quote_") or sy["name"] in ("@L", "@R"):
+                        continue
+                    v = E.nt_value(sy["name"])
+                    if not isinstance(v, (Str, Num)):
+                        continue
+                else:
+                    continue  # terminals: keywords, or tokens the action slices (`name:` -> name)
+                override[i] = Str.lit(f"\x01{i}\x02")
+                comps.append(i)
+            if not comps:
+                continue
+            label = GA.prod_label(nt, k)
+            where = f"{GA.g['file']}:{p['line']}"
+            ua = GA.main_user_action(p["action"])
+            paths = [q for q in E.prod_paths_with(nt, k, override) if getattr(q, "action", None) == ua.get("idx")]
+            verdicts = set()
+            for q in paths:
+                if any(e.kind == "error" for e in q.effects):
+                    continue
+                rv = q.ret
+                if isinstance(rv, Res):
+                    rv = rv.ok
+                if not isinstance(rv, Str):
+                    verdicts.add("?")
+                    continue
+                for t in rv.t:
+                    line = tmpl_str(t)
+                    if "<unknown>" in line:
+                        verdicts.add("?")
+                        continue
+                    found = set(int(x) for x in re.findall("\x01(\\d+)\x02", line))
+                    missing = [syms[i]["name"] for i in comps if i not in found]
+                    if missing:
+                        verdicts.add("drop")
+                        chk.violation("C11.R7", label, "component-dropped:" + ",".join(missing),
+                                      f"{label}: the operand text `{clean(line)}` built by this alternative does not contain {missing}: the source operand and the emitted one differ", where)
+                    else:
+                        verdicts.add("ok")
+            if verdicts == {"ok"}:
+                chk.ok("C11.R7", label, "every component of the operand is in the emitted text")
+            elif "drop" not in verdicts:
+                chk.undecided_("C11.R7", label, "operand text not followed by the action evaluator")
     # ---- R4/R5/R6 per opcode production
     for nt_data in GA.g["nonterminals"]:
         nt = nt_data["name"]
@@ -267,7 +324,12 @@ def bound_names(G, p):
         a = G.actions[idx]
         if a["kind"] == "user":
             for n, pos in zip(a["arg_names"], positions):
-                if pos is not None:
+                if isinstance(pos, tuple):
+                    # a composite argument (optional / parenthesised group): its members are seen through this name
+                    for sub in pos:
+                        if sub is not None and not isinstance(sub, tuple):
+                            out.setdefault(sub, n)
+                elif pos is not None:
                     out[pos] = n
             return
         if a["kind"] != "inline":
@@ -278,10 +340,12 @@ def bound_names(G, p):
             if "orig" in s:
                 inner.append(rest.pop(0) if rest else None)
             else:
+                grp = []
                 for _ in s["syms"]:
                     if rest:
-                        rest.pop(0)
-                inner.append(None)
+                        x = rest.pop(0)
+                        grp.extend(x if isinstance(x, tuple) else [x])
+                inner.append(tuple(grp) if grp else None)
         walk(a["action"], inner)
     walk(p["action"], list(range(len(p["symbols"]))))
     return out
